@@ -414,10 +414,16 @@ impl<'a> Compiler<'a> {
                 .find(|(import, _)| *import == function)
             {
                 let (super_depth, suffix) = super_depth(alias);
+                // an import may not climb above the root module
+                let parents = self
+                    .current_namespace
+                    .len()
+                    .checked_sub(super_depth)
+                    .ok_or_else(|| self.error(CompilationErrorPayload::SuperLimitReached))?;
                 let name = self
                     .current_namespace
                     .iter()
-                    .take(self.current_namespace.len() - super_depth)
+                    .take(parents)
                     .flat_map(|x| [x.as_ref(), "."])
                     .chain(std::iter::once(suffix.unwrap_or(alias)))
                     .collect::<String>();
@@ -435,11 +441,16 @@ impl<'a> Compiler<'a> {
                 {
                     // namespace.alias.suffix
                     let (super_depth, s) = super_depth(alias);
+                    let parents = self
+                        .current_namespace
+                        .len()
+                        .checked_sub(super_depth)
+                        .ok_or_else(|| self.error(CompilationErrorPayload::SuperLimitReached))?;
 
                     let name = self
                         .current_namespace
                         .iter()
-                        .take(self.current_namespace.len() - super_depth)
+                        .take(parents)
                         .flat_map(|x| [x.as_ref(), "."])
                         .chain([alias, ".", s.unwrap_or(suffix)].iter().copied())
                         .collect::<String>();
